@@ -110,7 +110,7 @@ def main():
             "guard": "cfg(recmo_uint_verif)",
             "enable": "RUSTFLAGS --cfg recmo_uint_verif via /verif/harness/.cargo/config.toml (and /verif/fuzz/.cargo/config.toml)",
             "baseline_off_cmd": "cd /repo && cargo test --workspace --no-fail-fast --offline",
-            "source_commits": ["47fc03b", "ce99d53"],
+            "source_commits": ["47fc03b", "ce99d53", "49e90c2"],
             "add_only": True,
         },
         "engines": [
